@@ -431,6 +431,15 @@ impl<'p> CoroutinePool<'p> {
             if CANCEL_TASKS.contains(&task_id) {
                 _ = CANCEL_TASKS.remove(&task_id);
                 warn!("Cancel task:{} successfully !", task_id);
+                if self.no_waits.contains(&task_id) {
+                    _ = self.no_waits.remove(&task_id);
+                    return;
+                }
+                // the task will never run, settle its waiter
+                _ = self
+                    .results
+                    .insert(task_id, Err("The task has been cancelled"));
+                self.notify(task_id);
                 return;
             }
             if let Some(co) = SchedulableCoroutine::current() {
